@@ -388,6 +388,7 @@ def plain_simulation(system, index, params, seed):
             # continuations see the same draws and must both equal the reference
             from simprocesd.model.factory_floor.asset import Asset as _A
             st, idc = random.getstate(), _A._id_counter
+            _A._id_counter = idc + 1        # (the original creates one more asset before it is continued, see below)
             loaded.env.run(params['horizon'] - cut)
             system.h_copy_digest = plain_digest(loaded)
             random.setstate(st)
@@ -395,7 +396,20 @@ def plain_simulation(system, index, params, seed):
         system.h_saved_ok = ((plain_digest(loaded) == before or params.get('continue_copy')) and plain_digest(system) == before
                              and sorted(getattr(a, 'name', '') or '' for a in loaded.find_assets())
                              == sorted(getattr(a, 'name', '') or '' for a in system.find_assets()))
+        # an asset created after the save; the original is continued; the old save is loaded once more at the end and
+        # one more asset is created: its id must be its own (ids key the pausing and cancelling of events)
+        blob = None
+        if how == 'pickle':
+            import pickle
+            blob = pickle.dumps(loaded)
+        plain_machine_class()(name='late_M', cycle_time=1)
         system.simulate(params['horizon'] - cut, print_summary=False)
+        if blob is not None:
+            pickle.loads(blob)
+        from simprocesd.model.factory_floor import PartHandler
+        PartHandler(name='after_load')
+        ids = [a.id for a in system.find_assets()]
+        system.h_ids_unique = len(ids) == len(set(ids))
     else:
         system.simulate(params['horizon'], print_summary=False)
     system.h_index = index
@@ -649,6 +663,11 @@ def run(sh):
                                          dict(pcase, params=pp), engine='parallel')
                             break
                         sh.count('saved_copies_continued', nsim)
+                    if any(not getattr(x, 'h_ids_unique', True) for x in psaved):
+                        sh.violation('saved_copy_differs', f'plain model saved with {how} at {cut}: after the old save had '
+                                     f'been loaded once more, a newly created asset got an id that another asset of the '
+                                     f'System already has', dict(pcase, params=pp), engine='parallel')
+                        break
                     badk = [k for k in range(nsim) if psaved[k].h_digest != psplit[k].h_digest
                             or not getattr(psaved[k], 'h_saved_ok', False)]
                     if badk:
